@@ -64,20 +64,42 @@ func (repo *Repository) NewObjectIter(ctx context.Context) (*ObjectIter, error) 
 		),
 
 		// Read the output of `git rev-list --objects`, strip off any
-		// trailing information, and write the OIDs to `git cat-file`:
-		pipe.LinewiseFunction(
+		// trailing information, and write the OIDs to `git cat-file`.
+		// The lines include the objects' paths, so they can be
+		// arbitrarily long; therefore, don't read them using a
+		// `bufio.Scanner` (which is what `pipe.LinewiseFunction()`
+		// would do), because it refuses lines longer than 64 KiB:
+		pipe.Function(
 			"copy-oids",
-			func(_ context.Context, _ pipe.Env, line []byte, stdout *bufio.Writer) error {
-				if len(line) < 40 {
-					return fmt.Errorf("line too short: '%s'", line)
+			func(_ context.Context, _ pipe.Env, stdin io.Reader, stdout io.Writer) error {
+				in := bufio.NewReader(stdin)
+				out := bufio.NewWriter(stdout)
+
+				for {
+					line, err := in.ReadBytes('\n')
+					if err != nil && err != io.EOF {
+						return fmt.Errorf("reading from 'git rev-list': %w", err)
+					}
+					atEOF := err == io.EOF
+					if atEOF && len(line) == 0 {
+						return out.Flush()
+					}
+					if len(line) > 0 && line[len(line)-1] == '\n' {
+						line = line[:len(line)-1]
+					}
+					if len(line) < 40 {
+						return fmt.Errorf("line too short: '%s'", line)
+					}
+					if _, err := out.Write(line[:40]); err != nil {
+						return fmt.Errorf("writing OID to 'git cat-file': %w", err)
+					}
+					if err := out.WriteByte('\n'); err != nil {
+						return fmt.Errorf("writing LF to 'git cat-file': %w", err)
+					}
+					if atEOF {
+						return out.Flush()
+					}
 				}
-				if _, err := stdout.Write(line[:40]); err != nil {
-					return fmt.Errorf("writing OID to 'git cat-file': %w", err)
-				}
-				if err := stdout.WriteByte('\n'); err != nil {
-					return fmt.Errorf("writing LF to 'git cat-file': %w", err)
-				}
-				return nil
 			},
 		),
 
